@@ -1088,6 +1088,14 @@ fn run_json(sc: &str, kind: &str, r: &RunOut) -> Value {
 fn main() {
 	if std::env::var("C20_LOUD").is_err() { quiet_panics(); }
 	init_thread();
+	if std::env::args().any(|a| a == "--list") {
+		let v: Vec<Value> = scenarios()
+			.iter()
+			.map(|s| json!({"name": s.name, "what": s.what, "threads": s.threads}))
+			.collect();
+		println!("{}", json!(v));
+		return;
+	}
 	let out_path = arg("out").expect("--out");
 	let mut out = Out::create(&out_path);
 	let only = arg("scenario");
@@ -1096,7 +1104,7 @@ fn main() {
 	let sample = arg_u64("sample", 0) as usize;
 	let shard = arg_u64("shard", 0) as usize;
 	let nshards = arg_u64("nshards", 1) as usize;
-	let watchdog = Duration::from_secs(arg_u64("watchdog", 30));
+	let watchdog = Duration::from_secs(arg_u64("watchdog", 90));
 	let prefix: Vec<usize> = arg("prefix")
 		.map(|p| p.split(',').filter(|x| !x.is_empty()).map(|x| x.parse().unwrap()).collect())
 		.unwrap_or_default();
